@@ -36,8 +36,9 @@ PREFIXES = [("ex", "http://ex.org/"), ("ns", "http://ex.org/ns/"), ("xsd", XSD),
 BASE = "http://base.org/b/"
 IRIS = ["http://ex.org/s1", "http://ex.org/s2", "http://ex.org/ns/o1", "http://empty.org/e1", BASE + "rel1", BASE + "rel2",
         "http://other.org/v#frag", "http://ex.org/C", "http://ex.org/ns/D", "http://ex.org/a.b", "http://ex.org/a-b_1",
-        "http://ex.org/ns/x.y-z", "http://ex.org/caf\u00e9"]
-PREDS = ["http://ex.org/p1", "http://ex.org/ns/p2", RDF_TYPE, BASE + "relp", "http://other.org/v#q"]
+        "http://ex.org/ns/x.y-z", "http://ex.org/caf\u00e9", "http://ex.org/ns/s1", "http://empty.org/s1", "http://ex.org/o1"]
+PREDS = ["http://ex.org/p1", "http://ex.org/ns/p2", RDF_TYPE, BASE + "relp", "http://other.org/v#q",
+         "http://ex.org/ns/p1", "http://empty.org/p1", "http://ex.org/p2"]      # same local names in several namespaces
 BNODES = ["_:b1", "_:b2", "_:x_1"]
 PIECES = ["a", "b c", "#", " # x", ";", " ; ", ",", " , ", ".", " . ", '\\"', "\\\\", "'", "@", "^^", "<", ">", "é", "\\n", "xsd:", "1", "\u2028", "\u0085"]
 SPECIAL_PIECES = set(PIECES) - {"a", "b c", "1", "é"}
@@ -64,9 +65,10 @@ class Chooser(object):
 
 
 def render_iri(iri, ch, declared, use_base, position):
+    """declared: dict prefix -> namespace currently bound (bindings may change in the middle of a document)"""
     forms = ["abs"]
-    for p, ns in PREFIXES:
-        if p in declared and iri.startswith(ns):
+    for p, ns in declared.items():
+        if iri.startswith(ns):
             loc = iri[len(ns):]
             if loc and all(c.isalnum() or c in "_-." for c in loc) and loc[0] not in "-." and loc[-1] != ".":
                 forms.append("pref:" + p)
@@ -82,7 +84,7 @@ def render_iri(iri, ch, declared, use_base, position):
     if f == "a":
         return "a"
     p = f[5:]
-    ns = dict(PREFIXES)[p]
+    ns = declared[p]
     return "%s:%s" % (p, iri[len(ns):])
 
 
@@ -119,15 +121,18 @@ def build(case):
     for s, p, o in triples:
         if o[0] == "lit" and DTYPES[o[2]][2]:
             needed.add(DTYPES[o[2]][2])
-    declared = set(needed)
+    decl = set(needed)
     mask = case.get("prefix_mask", 0xff)
     for idx, (p, ns) in enumerate(PREFIXES):
         if mask >> idx & 1:
-            declared.add(p)
+            decl.add(p)
     header = []
+    declared = {}
     for p, ns in PREFIXES:
-        if p in declared:
+        if p in decl:
             header.append("@prefix %s: <%s> ." % (p, ns))
+            declared[p] = ns
+    rebind = Chooser(case.get("rebind"))
     if use_base:
         header.append("@base <%s> ." % BASE)
     # grouping: consecutive triples with the same subject (and predicate) may share it
@@ -137,6 +142,15 @@ def build(case):
     n = len(triples)
     while i < n:
         s, p, o = triples[i]
+        if i > 0 and case.get("rebind") and rebind.pick(3) == 0:
+            # re-bind a prefix in the middle of the document (legal Turtle; concatenated dumps do it)
+            cand = [q for q in ("ex", "ns", "") if q in declared]
+            if cand:
+                q = cand[rebind.pick(len(cand))]
+                others = [ns for ns in ("http://ex.org/", "http://ex.org/ns/", "http://empty.org/") if ns != declared[q]]
+                declared[q] = others[rebind.pick(len(others))]
+                tokens.append(["@prefix %s: <%s> ." % (q, declared[q])])
+                labels.add("prefix-rebound")
         stoks = [render_iri(s[1], ch, declared, use_base, "s") if s[0] == "iri" else s[1],
                  render_iri(p, ch, declared, use_base, "p"), render_obj(o, ch, declared, use_base)]
         expected.append((tuple(s), p, obj_expected(o)))
@@ -162,6 +176,11 @@ def build(case):
         labels.add("comment")
     body = ""
     for stoks in tokens:
+        if len(stoks) == 1:         # a directive: alone on its line
+            if body and not body.endswith("\n"):
+                body += "\n"
+            body += stoks[0] + "\n"
+            continue
         text = stoks[0]
         for tk in stoks[1:]:
             sep = SEPS[sp.pick(len(SEPS))]
@@ -355,8 +374,11 @@ def cases(draw):
             seen.add(key)
             triples.append([list(s), p, o])
     ints = st.lists(st.integers(0, 41), min_size=1, max_size=24)
-    return {"triples": triples, "forms": draw(ints), "seps": draw(ints), "comments": draw(ints), "group": draw(ints),
+    case = {"triples": triples, "forms": draw(ints), "seps": draw(ints), "comments": draw(ints), "group": draw(ints),
             "base": draw(st.booleans()), "prefix_mask": draw(st.integers(0, 255))}
+    if draw(st.integers(0, 3)) == 0:
+        case["rebind"] = draw(ints)
+    return case
 
 
 def strategy(tier):
